@@ -33,6 +33,7 @@ TECHNIQUE += '; falsy rule values and action results in the call / rule_call con
 TECHNIQUE += '; a single-bound name is never declared as a list (defines_list over all classes); a call is optimised into a call of the same rule (who-may-write Call._rule + contract)'
 TECHNIQUE += '; the separator of joins and gathers commits (= C05.R4); nameset/nameadd bind whatever last_node holds (None and falsy values)'
 TECHNIQUE += '; Rule.optimized / Grammar.optimized contract: the optimised rules keep name, parameters, flags and (modulo the valid rewrites) their body, in the written order, the written grammar untouched (C01.R15, interpreted on stand-ins)'
+TECHNIQUE += '; whitespace placement and is_tokn derivation (R16 = C09.R1)'
 LEVEL_NOTE = ('Trusted: contextlib.contextmanager throws the body exception at the yield; unresolved calls may raise '
               'anything; the documented CST table (DESIGN appendix A) is the oracle, written from docs/ast.rst and '
               'docs/syntax.rst.')
@@ -1318,6 +1319,17 @@ def r15_rule_and_grammar_optimized(a, tier):
     return rule_and_grammar_optimized(a, 'C01.R15')
 
 
+def r16_whitespace_placement(a, tier):
+    """whitespace is skipped before tokens and lower-case rules, never before patterns or at the entry of upper-case rules: the placement table, the guard of next_token(ri) and the derivation of is_tokn from the rule name in both back-ends (= C09.R1)"""
+    from . import c09
+    rep = c09.r1_placement(a, tier)
+    rep.rule = 'C01.R16'
+    for f in rep.findings:
+        f.rule = 'C01.R16'
+    rep.text = '[= C09.R1] ' + rep.text
+    return rep
+
+
 RULES = [r_chain, r1_frames, r1b_semantic_failures, r1c_control_containment, r2_cst, r3_ordered_choice, r4_progress, r5_state_stack,
          r6_defines_cover_operands, r7_what_a_frame_keeps, r7b_negative_lookahead,
-         r8_leaf_protocol, r9_engine_contracts, r10_model_values, r11_optimizer, r12_text_to_model, r13_calls_keep_their_rule, r14_separator_commits, r15_rule_and_grammar_optimized]
+         r8_leaf_protocol, r9_engine_contracts, r10_model_values, r11_optimizer, r12_text_to_model, r13_calls_keep_their_rule, r14_separator_commits, r15_rule_and_grammar_optimized, r16_whitespace_placement]
